@@ -88,6 +88,7 @@ HARMLESS = [
     ('C04', 'sc3/synth/synthdef.py', "                    arguments[cn.arg_num] = ctrl_ugens[i]\n                    self._set_control_names(ctrl_ugens[i], cn)", "                    out = ctrl_ugens[i]\n                    arguments[cn.arg_num] = out\n                    self._set_control_names(out, cn)", 'local for the control output in the group helper'),
     ('C17', 'sc3/synth/bus.py', "        self._server.addr.send_msg('/c_fill', self._index, channels, value)", "        index = self._index\n        self._server.addr.send_msg('/c_fill', index, channels, value)", 'local for the bus index in fill'),
     ('C13', 'sc3/seq/patterns/eventpatterns.py', "                event = inevent.copy()\n                event.update(self._stream_dict_next(stream_dict))", "                event = inevent.copy()\n                values = self._stream_dict_next(stream_dict)\n                event.update(values)", 'local for the values of a Pbind pass'),
+    ('C04', 'sc3/synth/synthdef.py', "                        index = cn.index\n                        for i, val in enumerate(values):\n                            varcontrols[index + i] = val", "                        first = cn.index\n                        for i, val in enumerate(values):\n                            varcontrols[first + i] = val", 'local renamed in the variant writer'),
 ]
 
 BREAKING = [
@@ -179,6 +180,8 @@ BREAKING = [
     ('C06', 'sc3/base/_osclib.py', "                elif arg_type == self.ARG_TYPE_FLOAT:\n                    dgram += write_float(value)", "                elif arg_type == self.ARG_TYPE_FLOAT:\n                    dgram += write_double(value)", 'float arguments encoded as doubles under tag f'),
     ('C18', 'sc3/base/_osclib.py', "                    if len(param_stack) < 2:", "                    if len(param_stack) < 1:", 'closing bracket without an open array accepted'),
     ('C06', 'sc3/base/_osclib.py', "                elif param == \"f\":  # Float.\n                    val, index = get_float(self._dgram, index)", "                elif param == \"f\":  # Float.\n                    val, index = get_double(self._dgram, index)", 'float arguments decoded as doubles'),
+    ('C04', 'sc3/synth/synthdef.py', '                for varname, pairs in self._variants.items():\n                    varname = self._name + \'.\' + varname\n                    if len(varname) > 32:\n                        _logger.warning(\n                            f"variant \'{varname}\' name too log, "\n                            "not writing more variants")\n                        return False\n\n                    varcontrols = self._controls[:]\n', '                varcontrols = self._controls[:]\n                for varname, pairs in self._variants.items():\n                    varname = self._name + \'.\' + varname\n                    if len(varname) > 32:\n                        _logger.warning(\n                            f"variant \'{varname}\' name too log, "\n                            "not writing more variants")\n                        return False\n\n', 'variants share one control array (copy hoisted out of the loop)'),
+    ('C02', 'sc3/synth/synthdef.py', "                frw.write_pascal_str(file, item.name)\n                frw.write_i32(file, item.index)", "                frw.write_i32(file, item.index)\n                frw.write_pascal_str(file, item.name)", 'name table entries written index first'),
 ]
 
 
